@@ -567,4 +567,8 @@ def textStableB (S : Schema) : Bool :=
     | some q' => decide ((S.dfa t).edgesOf q' = (S.dfa t).edgesOf q) && ((S.dfa t).validEnd q' == (S.dfa t).validEnd q)
     | none => true))
 
+/-- leaf types accept the empty content -/
+def leafOkB (S : Schema) : Bool :=
+  (List.range S.nodes.size).all (fun t => !(S.nodeType t).isLeaf || (S.dfa t).accepts [])
+
 end PM.FromDom
